@@ -33,7 +33,7 @@ int main(int argc, char **argv) {
             int inject = (inj_at || inj_from) && !strcmp(op, "writef");
             for (long k = 1;; k++) {
                 if (inject && k > 20) inject = 0;
-                long lkb = vh_locks - vh_unlocks;
+                long lkb = VH_LOCK_BALANCE();
                 vh_where = op; vh_watchdog(10);
                 vh_call_begin();
                 if (inject) { if (inj_at) vh_fail_at = k; else vh_fail_from = k; }
@@ -45,14 +45,14 @@ int main(int argc, char **argv) {
                 long nfail = vh_failed;
                 vh_call_end(); alarm(0);
                 vh_emit("{\"op\":\"%s\",\"v\":%d,\"inj\":%ld,\"nfail\":%ld,\"ok\":%s,\"lkd\":%ld}", op, v, inject ? k : 0L, nfail, vh_bool(ok),
-                        (vh_locks - vh_unlocks) - lkb);
+                        VH_LOCK_BALANCE() - lkb);
                 if (!inject || nfail == 0 || ok) break;
             }
             if (s % 3 == 0 && i % 7 == 0) usleep(0), sleep(0);
         }
-        long lkb = vh_locks - vh_unlocks;
+        long lkb = VH_LOCK_BALANCE();
         L->free(L);
-        long lkd = (vh_locks - vh_unlocks) - lkb;
+        long lkd = VH_LOCK_BALANCE() - lkb;
         vh_bprintf(&b, "{\"op\":\"free\",\"lkd\":%ld,\"live\":%ld,\"content\":[", lkd, vh_live_since(mark));
         FILE *f = fopen(path, "r"); char line[256]; int first = 1;
         while (f && fgets(line, sizeof line, f)) { int x = 0; if (sscanf(line, "line %d", &x) == 1) { vh_bprintf(&b, "%s%d", first ? "" : ",", x); first = 0; } }
